@@ -154,7 +154,15 @@ def c_functor_bad_argument(prog, r):
     if len(others) >= 1:
       t = r.choice(others)
       sub = r.choice([x for x in prog if x.get('ext')])
-      text = G.p_program(prog) + 'Nf9 := %s(%s: %s);\n' % (d['name'], t['name'], sub['name'])
+      good = [x for x in prog if x.get('ext') and x['name'] in dep]
+      if good and r.random() < 0.5:
+        # one applicable argument next to the inapplicable one: still an error
+        g = r.choice(good)
+        pair = ['%s: %s' % (g['name'], g['name']), '%s: %s' % (t['name'], sub['name'])]
+        r.shuffle(pair)
+        text = G.p_program(prog) + 'Nf9 := %s(%s);\n' % (d['name'], ', '.join(pair))
+      else:
+        text = G.p_program(prog) + 'Nf9 := %s(%s: %s);\n' % (d['name'], t['name'], sub['name'])
       return dict(text=text, pred='Nf9', offender=t['name'], expect=None, model=None)
   return None
 
